@@ -85,13 +85,27 @@ def render_roots(F):
     return sorted(set(roots))
 
 
-class Site:
-    __slots__ = ("b", "bb", "kind", "desc", "ops", "span", "key", "exp", "term", "opty")
+def h8(s):
+    import hashlib
+    return hashlib.sha256(s.encode()).hexdigest()[:8]
 
-    def __init__(self, b, bb, kind, desc, ops, span, exp, term, opty=""):
+
+class Site:
+    """key  = function key : kind # hash of the *canonical* (name-independent) operand expressions — what reviewed
+              rows and known findings are matched by (renaming a local does not change it);
+       text = function key : kind(readable operand expressions) — for humans and for the table generator."""
+    __slots__ = ("b", "bb", "kind", "desc", "ops", "span", "key", "exp", "term", "opty", "text", "canon")
+
+    def __init__(self, b, bb, kind, desc, ops, span, exp, term, opty="", raw_ops=()):
         self.b, self.bb, self.kind, self.desc, self.ops, self.span, self.exp, self.term = b, bb, kind, desc, ops, span, exp, term
         self.opty = opty
-        self.key = "%s:%s(%s)" % (fn_key(b), kind, ", ".join(ops))
+        self.text = "%s:%s(%s)" % (fn_key(b), kind, ", ".join(ops))
+        if kind == "diverge":
+            # the message of the panic distinguishes panic!/unreachable!/unimplemented!/assert failures
+            self.canon = ", ".join(ops) + "|" + ", ".join(norm(b.canon(o)) for o in raw_ops)[:400]
+        else:
+            self.canon = ", ".join(norm(b.canon(o)) for o in raw_ops)
+        self.key = "%s:%s#%s" % (fn_key(b), kind, h8(self.canon))
 
 
 def inventory(F, reach):
@@ -112,7 +126,8 @@ def inventory(F, reach):
                     sd = b.single_def(cpl["l"])
                     if sd and sd[0] == "stmt":
                         opty = (sd[3].get("rv") or {}).get("opty", "")
-                out.append(Site(b, bb, msg.replace("Overflow:", "").replace("Unchecked", ""), msg, ops, t["span"], t["exp"], t, opty))
+                out.append(Site(b, bb, msg.replace("Overflow:", "").replace("Unchecked", ""), msg, ops, t["span"], t["exp"], t, opty,
+                                raw_ops=t["ops"]))
             elif t["k"] == "call":
                 pk = is_panicking_call(t)
                 if pk is None:
@@ -120,10 +135,10 @@ def inventory(F, reach):
                 kind, desc = pk
                 if kind == "diverge":
                     ops = [short(callee_def(t))]
-                    out.append(Site(b, bb, "diverge", desc, ops, t["span"], t["exp"], t))
+                    out.append(Site(b, bb, "diverge", desc, ops, t["span"], t["exp"], t, raw_ops=t["args"]))
                 else:
                     ops = [norm(b.expr(a))[:70] for a in t["args"]]
-                    out.append(Site(b, bb, kind, desc, ops, t["span"], t["exp"], t))
+                    out.append(Site(b, bb, kind, desc, ops, t["span"], t["exp"], t, raw_ops=t["args"]))
     return out
 
 
@@ -333,7 +348,7 @@ def discharge(F, mag, site):
 
 
 def load_table():
-    """tables/panic_sites.txt: `site key :: invariant / reason` (one reviewed row per site key)"""
+    """tables/panic_sites.txt: `site key :: readable site text :: invariant / reason` (one reviewed row per key)"""
     import os
     from .facts import VERIF
     rows = {}
@@ -343,9 +358,9 @@ def load_table():
             line = line.rstrip("\n")
             if not line.strip() or line.startswith("#"):
                 continue
-            if " :: " in line:
-                k, r = line.split(" :: ", 1)
-                rows[k.strip()] = r.strip()
+            parts = line.split(" :: ")
+            if len(parts) >= 3:
+                rows[parts[0].strip()] = parts[-1].strip()
     return rows
 
 
